@@ -81,7 +81,10 @@ class CollectorRegistry(Collector):
             result.append(metric.name)
             for suffix in type_suffixes.get(metric.type, []):
                 result.append(metric.name + suffix)
-        return result
+        # A collector may describe one name more than once (e.g. a counter 'x'
+        # and a gauge 'x_total'); record it once, so that unregister() can
+        # release every recorded name.
+        return list(dict.fromkeys(result))
 
     def collect(self) -> Iterable[Metric]:
         """Yields metrics from the collectors in the registry."""
